@@ -259,6 +259,7 @@ func TestCheck(t *testing.T) {
 
 	scripted(r)
 	realUploader(r)
+	earlyOK(r)
 	overlapping(r)
 	stress(r)
 	linearizable(r)
